@@ -384,3 +384,97 @@ func rawArgs(ci ssa.CallInstruction) []ssa.Value {
 	}
 	return c.Args
 }
+
+// hookPresenceGuards names the optional hooks (server.Hooks fields) whose presence test ("hooks.X != nil")
+// dominates in: the instruction only runs when a plugin installed that hook.
+func hookPresenceGuards(in ssa.Instruction) []string {
+	var out []string
+	for _, g := range ssax.Guards(in) {
+		bo, ok := g.Cond.(*ssa.BinOp)
+		if !ok || (bo.Op != token.NEQ && bo.Op != token.EQL) {
+			continue
+		}
+		x, y := bo.X, bo.Y
+		if isNilConst(x) {
+			x, y = y, x
+		}
+		if !isNilConst(y) {
+			continue
+		}
+		// taken edge must be the "hook present" one
+		present := (bo.Op == token.NEQ) == g.Branch
+		if !present {
+			continue
+		}
+		for v := range ssax.Backward(x) {
+			if o := ssax.FieldOwner(v); strings.HasPrefix(o, "server.Hooks.") {
+				out = append(out, strings.TrimPrefix(o, "server.Hooks."))
+			}
+		}
+	}
+	sort.Strings(out)
+	return out
+}
+
+// noHookGuard: a state change of the broker must not depend on whether a plugin installed an optional hook.
+func noHookGuard(c *core.Ctx, rule, key string, in ssa.Instruction, what string) {
+	hs := hookPresenceGuards(in)
+	c.Check(len(hs) == 0, rule, key+"|not-under-hook-test", ipos(c, in), what+" does not depend on a hook being installed",
+		fmt.Sprintf("%s only happens when the optional hook %s is installed (it sits inside 'if hooks.%s != nil'): without that plugin the broker behaves differently", what, strings.Join(hs, ", "), strings.Join(hs, ", ")))
+}
+
+// ackOnEveryPath: in publishHandler, for a QoS 1 and for a QoS 2 PUBLISH, every way of returning without an
+// error passes through the write of the acknowledgement (an error return closes the connection instead).
+func ackOnEveryPath(c *core.Ctx, rule string) {
+	p := c.P
+	ph := p.Func("server", "(*client).publishHandler")
+	write := p.Func("server", "(*client).write")
+	writes := staticCalls(ph, write)
+	isWrite := func(in ssa.Instruction) bool {
+		for _, w := range writes {
+			if w.Instr == in {
+				return true
+			}
+		}
+		return false
+	}
+	for _, q := range []int64{1, 2} {
+		pins := map[ssa.Value]ssax.AV{}
+		for _, l := range loadsOfField(ph, "pkg/packets.Publish.Qos") {
+			if instrOf(l) != nil && instrOf(l).Parent() == ph {
+				pins[l] = ssax.AVInt(q)
+			}
+		}
+		key := fmt.Sprintf("publishHandler|ack-on-every-path|qos%d", q)
+		if len(pins) == 0 {
+			c.Undecidedf(rule, key, fpos(c, ph), "publishHandler never reads the QoS of the PUBLISH packet")
+			continue
+		}
+		r := ssax.Analyze(ph, ssax.ReachOpts{Pins: pins})
+		var bad ssa.Instruction
+		to := func(in ssa.Instruction) bool {
+			ret, ok := in.(*ssa.Return)
+			if !ok || len(ret.Results) == 0 {
+				return false
+			}
+			res := ret.Results[len(ret.Results)-1]
+			if r.FactAt(ret, res, false).K == ssax.NonNil {
+				return false
+			}
+			// the repo's wrap helper: converError(err) with err known to be non-nil is a failure return
+			if call, ok := res.(*ssa.Call); ok && isCallTo(call, "server.converError") && r.FactAt(call, call.Call.Args[0], false).K == ssax.NonNil {
+				return false
+			}
+			return true
+		}
+		if in, found := (ssax.PathQuery{Fn: ph, To: to, Avoid: isWrite, Feasible: r}).Find(); found {
+			bad = in
+		}
+		pos := fpos(c, ph)
+		if bad != nil {
+			pos = ipos(c, bad)
+		}
+		c.Check(bad == nil, rule, key, pos, fmt.Sprintf("a QoS %d PUBLISH is acknowledged on every path that does not fail", q),
+			fmt.Sprintf("publishHandler can return without an error and without writing the acknowledgement of a QoS %d PUBLISH (e.g. when a hook dropped the message): the publisher retransmits for ever", q))
+	}
+}
